@@ -900,7 +900,9 @@ void check_grid(const char *name, const Problem &P, const GridOut &G,
       }
       const double pe = (double)fabsl(dot(nrm, f.mid) - off);
       st.plane = std::max(st.plane, pe / P.Lbox);
-      if (pe > TOL_GEO * P.Lbox) {
+      // (the plane-cutting construction documents a positional accuracy
+      // that depends on the generator separation: g_delta carries it)
+      if (pe > std::max(TOL_GEO, g_delta) * P.Lbox) {
         r.fail(fmt("%s: face %zu->%lld (area %g): midpoint is %g away from the "
                    "%s",
                    name, i, (long long)f.id, f.area, pe,
@@ -957,7 +959,7 @@ void check_grid(const char *name, const Problem &P, const GridOut &G,
       if (f.area > 1e-3 * lmax * lmax) {
         const double me = (double)norm(tw->mid - f.mid);
         st.twin_mid = std::max(st.twin_mid, me / lmax);
-        if (me > 1e-6 * lmax + 1e-8 * P.Lbox) {
+        if (me > 1e-6 * lmax + std::max(TOL_GEO, 4. * g_delta) * P.Lbox) {
           r.fail(fmt("%s: face %zu->%zu: midpoints of the twins differ by %g "
                      "(cell size %g)",
                      name, i, j, me, lmax));
@@ -1138,8 +1140,34 @@ bool sliver_prone(const Problem &P) {
         for (size_t z = y + 1; z < kk; ++z) {
           const V3 t = P.p[nb[z].second] - P.p[a];
           const LD e = std::max({norm(u), norm(v), norm(t)});
-          if (fabsl(dot(w, t)) < 1e-9L * e * e * e)
+          // flatness below which the circumcentre of the quadruple, computed
+          // in double arithmetic, can be displaced by more than the DELTA of
+          // the tolerance model: relative error of the centre ~ EPS e^3/|det|
+          // >= DELTA  <=>  |det| <= (EPS/DELTA) e^3 = 1e-6 e^3 (x2 margin)
+          if (fabsl(dot(w, t)) < 2e-6L * e * e * e)
             return true;
+          // a fifth generator (nearly) on the circumsphere of the quadruple:
+          // the Delaunay triangulation is (nearly) degenerate there and
+          // contains sliver tetrahedra whichever way the tie is broken
+          {
+            // circumcentre c relative to a: 2 M c = (|u|^2,|v|^2,|t|^2)
+            const LD det = dot(w, t);
+            if (det == 0.L)
+              continue;
+            const V3 vt = cross(v, t), tu = cross(t, u);
+            const LD u2 = dot(u, u), v2 = dot(v, v), t2 = dot(t, t);
+            const V3 cc = (0.5L / det) * (u2 * vt + v2 * tu + t2 * w);
+            const LD R = norm(cc);
+            if (!(R < 4.L * (LD)P.Lbox))
+              continue;
+            for (size_t q = 0; q < kk; ++q) {
+              if (q == x || q == y || q == z)
+                continue;
+              const LD d = norm(P.p[nb[q].second] - P.p[a] - cc);
+              if (fabsl(d - R) < 2e-6L * R)
+                return true;
+            }
+          }
         }
       }
   }
@@ -1395,9 +1423,12 @@ VResult o_old_impl(const VCase &c) {
     }
   }
   g_delta = DELTA;
+  // a failed invariant of the plane-cutting grid alone is never attributed to
+  // the finding about the incremental construction
+  const bool old_only = r.msg.compare(0, 15, "OldVoronoiGrid:") == 0;
   if (!r.ok && r.known.empty() && old_tolerance_prone(P))
     r.known = "oldvoronoi_tolerance_near_degenerate";
-  else if (!r.ok && r.known.empty() && sliver_prone(P))
+  else if (!r.ok && r.known.empty() && !old_only && sliver_prone(P))
     r.known = "newvoronoi_sliver_geometry"; // the differential sees it as well
   debug("old", P, st, sep);
   if (!r.ok && getenv("C15_NOFAIL")) {
